@@ -42,12 +42,13 @@ class C01(ProgProp):
                    "py2 str that happens to be UTF-8 may come back as text (same bytes); int/long are one kind",
                    "1.0-2.2 corpus files have no reference interpreter: they are only decoded structurally (C09, C12)"]
 
-    def strategy(self, ctx):
-        base = super().strategy(ctx)
-        return st.tuples(base, st.one_of(st.just(""), st.binary(max_size=12).map(rw.hx),
-                                         st.sampled_from(["4e", "00", "630000", "72000000"])),
-                         st.booleans(), st.integers(0, 59)).map(
-            lambda p: dict(p[0], trail=p[1], pypy=p[2], down=p[3]))
+    def strata(self, ctx):
+        def wrap(base):
+            return st.tuples(base, st.one_of(st.just(""), st.binary(max_size=12).map(rw.hx),
+                                             st.sampled_from(["4e", "00", "630000", "72000000"])),
+                             st.booleans(), st.integers(0, 59)).map(
+                lambda p: dict(p[0], trail=p[1], pypy=p[2], down=p[3]))
+        return [[label, wrap(s_), w] for label, s_, w in super().strata(ctx)]
 
     def fixed_cases(self, ctx):
         for rel in pd.corpus_files():
